@@ -30,7 +30,7 @@ RULE_HOME = {
     'W1': 'w_api', 'W2': 'w_api', 'W3': 'w_api', 'W4': 'w_api', 'W5': 'w_api', 'W6': 'w_api',
     'G2': 'g_lex', 'G4': 'g_lex',
     'S1': 's_state', 'S2': 's_state', 'S3': 's_state', 'S4': 's_state', 'S5': 's_state', 'S6': 's_state', 'S7': 's_state',
-    'P1': 'p_panic', 'X4': 'x_emit', 'X13': 'x_macro', 'X14': 'x_macro', 'X15': 'x_macro', 'X16': 'x_macro', 'X17': 'x_range', 'X18': 'x_split',
+    'P1': 'p_panic', 'X4': 'x_emit', 'X13': 'x_macro', 'X14': 'x_macro', 'X15': 'x_macro', 'X16': 'x_macro', 'X17': 'x_range', 'X18': 'x_split', 'X19': 'x_split',
 }
 
 
@@ -361,7 +361,7 @@ PROPS = {
         'technique': 'named-parameter threading lint + per-handler emission classes under the flag',
     },
     'C05': {
-        'rules': [rule('X13'), rule('X18'), rule('X9'), rule('X10'), rule('X4', drop=['strip-', 'double-emission'])],
+        'rules': [rule('X13'), rule('X18'), rule('X19'), rule('X9'), rule('X10'), rule('X4', drop=['strip-', 'double-emission'])],
         'explanation': 'NARROW claim: the structural clauses of macro expansion and the run-splitting of the macro body are decided; '
                        'the rewrite chain applied to each run and the argument lexer are not. '
                        'Misuse is reported by name: DefineNotFound carries the name that was used, DefineArgNotFound the formal that got '
@@ -374,13 +374,15 @@ PROPS = {
                        'every maximal identifier outside string literals is a run of its own (so a formal there is replaced, and only '
                        'as a whole identifier), the inside of an ordinary string literal (escaped quotes included) never yields an '
                        'identifier-only run (no substitution inside strings), a // inside a string does not start a comment, and the '
-                       'two-character tokens of the rewrite chain are not cut by a run boundary (X18). The expansion is preprocessed '
+                       'two-character tokens of the rewrite chain are not cut by a run boundary (X18). Each run is looked up under itself in the '
+                       'formal/actual map and replaced by the bound value, any other run is appended after the literal rewrite chain, which '
+                       'agrees with the 22.5.1 table and rewrites a token before the tokens it contains (X19). The expansion is preprocessed '
                        'again with the live define table and the table it returns is adopted (X9, X10): nested usages see the table '
                        'current at the point of use. The usage node has a handler that replaces it and keeps the blanks after it once '
                        '(X4b).',
-        'decided': 'X13 X18 X9 X10 X4b — error payloads, positional binding with defaults, body-less macros, run-splitting of the macro '
+        'decided': 'X13 X18 X19 X9 X10 X4b — error payloads, positional binding with defaults, body-less macros, run-splitting of the macro '
                    'body (identifier runs, opaque strings and comments, nothing lost), live-table threading, usage replaced once',
-        'not_decided': 'the text rewrites applied to each run (`` / `" / `\\`" / line continuations) beyond their tokens not being cut, the '
+        'not_decided': 'the '
                        'argument lexer of the usage (nested brackets, strings, commas), a `" inside an ordinary string literal (not '
                        'judged), and the concatenated text as a value',
         'assumptions': [],
